@@ -154,7 +154,7 @@ Section Bytes.
   Proof. intros [|a data] e o H; [congruence|reflexivity]. Qed.
 
   Lemma write_zero_throws : forall (data : list A) o, data <> [] ->
-    write_loop (Done 0 :: o) data = ([], o, Throw (EFd 0)).
+    write_loop (Done 0 :: o) data = ([], o, Throw EZero).
   Proof. intros [|a data] o H; [congruence|reflexivity]. Qed.
 
   (* a fault-free kernel (every call transfers at least one byte) writes everything *)
@@ -493,24 +493,38 @@ Section Bytes.
       + exact Q3.
   Qed.
 
-  Lemma fs_run_spec : forall cap ops o (buf : list A) w r s,
-    fs_run cap o buf ops = (w, r, s) ->
-    (s = Ok -> w = buf ++ concat (map fs_data ops)) /\
+  Lemma fs_ops_spec : forall cap ops o (buf : list A) buf' w r s,
+    fs_ops cap o buf ops = (buf', w, r, s) ->
+    (s = Ok -> w ++ buf' = buf ++ concat (map fs_data ops)) /\
     (exists rest, buf ++ concat (map fs_data ops) = w ++ rest).
   Proof.
-    induction ops as [|op ops IH]; intros o buf w r s H; cbn [fs_run map concat] in *.
-    - destruct (fs_flush o buf) as [[[b1 w1] r1] s1] eqn:F. inv H.
-      destruct (fs_flush_spec _ _ _ _ _ _ F) as (Q1 & Q2 & _). rewrite app_nil_r. split; [|exact Q2].
-      intro Hs. destruct (Q1 Hs) as [_ ->]. reflexivity.
+    induction ops as [|op ops IH]; intros o buf buf' w r s H; cbn [fs_ops map concat] in *.
+    - inv H. rewrite app_nil_r. split; [reflexivity|]. exists buf'. reflexivity.
     - destruct (fs_step cap o buf op) as [[[buf1 w1] o1] s1] eqn:S.
       destruct (fs_step_spec _ _ _ _ _ _ _ _ S) as (P1 & [rest P2] & _ & _).
       destruct s1.
-      + destruct (fs_run cap o1 buf1 ops) as [[w2 o2] s2] eqn:R. inv H.
-        destruct (IH _ _ _ _ _ R) as (I1 & [rest2 I2]). specialize (P1 eq_refl). split.
-        * intro Hs. rewrite (I1 Hs). rewrite !app_assoc. rewrite P1. reflexivity.
+      + destruct (fs_ops cap o1 buf1 ops) as [[[buf2 w2] o2] s2] eqn:R. injection H as <- <- <- <-.
+        destruct (IH _ _ _ _ _ _ R) as (I1 & [rest2 I2]). specialize (P1 eq_refl). split.
+        * intro Hs. rewrite <- app_assoc, (I1 Hs), !app_assoc, P1. reflexivity.
         * exists rest2. rewrite app_assoc, <- P1, <- !app_assoc. f_equal. exact I2.
-      + inv H. split; [discriminate|]. exists (rest ++ concat (map fs_data ops)). rewrite app_assoc, P2, <- app_assoc. reflexivity.
-      + inv H. split; [discriminate|]. exists (rest ++ concat (map fs_data ops)). rewrite app_assoc, P2, <- app_assoc. reflexivity.
+      + injection H as <- <- <- <-. split; [discriminate|]. exists (rest ++ concat (map fs_data ops)). rewrite app_assoc, P2, <- app_assoc. reflexivity.
+      + injection H as <- <- <- <-. split; [discriminate|]. exists (rest ++ concat (map fs_data ops)). rewrite app_assoc, P2, <- app_assoc. reflexivity.
+  Qed.
+
+  (* whole life of a stream: status FsOk means every byte of every argument reached the kernel, in order, once *)
+  Lemma fs_run_spec : forall cap ops o (buf : list A) w r s,
+    fs_run cap o buf ops = (w, r, s) ->
+    s = FsOk -> w = buf ++ concat (map fs_data ops).
+  Proof.
+    intros cap ops o buf w r s H Hs. unfold fs_run in H.
+    destruct (fs_ops cap o buf ops) as [[[buf1 w1] o1] s1] eqn:R.
+    destruct (fs_ops_spec _ _ _ _ _ _ _ _ R) as (P1 & _).
+    destruct s1; try (inv H; discriminate).
+    - destruct (fs_flush o1 buf1) as [[[b2 w2] o2] s2] eqn:F.
+      destruct (fs_flush_spec _ _ _ _ _ _ F) as (Q1 & _).
+      destruct s2; inv H; try discriminate.
+      destruct (Q1 eq_refl) as [_ ->]. apply P1. reflexivity.
+    - destruct (fs_flush o1 buf1) as [[[b2 w2] o2] s2] eqn:F. destruct s2; inv H; discriminate.
   Qed.
 
   (* the buffer never overflows (the assert in Ensure, the memcpy in write): state reached after a
@@ -593,7 +607,12 @@ Proof. reflexivity. Qed.
 Example ex_read_or_eof : read_or_eof [Done 2; Eintr; Done 7; Done 7] [1;2;3] 5 = ([1;2;3], [], [], Ok).
 Proof. reflexivity. Qed.
 Example ex_fs : fs_run 4 [Done 1; Done 100; Done 100; Done 100] []
-                  [FWrite [1;2;3]; FWrite [4;5]; FFmt 2 [6]; FWrite [7;8;9;10;11]; FFlush] = ([1;2;3;4;5;6;7;8;9;10;11], [], Ok).
+                  [FWrite [1;2;3]; FWrite [4;5]; FFmt 2 [6]; FWrite [7;8;9;10;11]; FFlush] = ([1;2;3;4;5;6;7;8;9;10;11], [], FsOk).
+Proof. reflexivity. Qed.
+(* a failed flush followed by the destructor's retry writes bytes twice: the run is a failure (never FsOk) *)
+Example ex_fs_retry : fs_run 4 [Done 2; Fail 28; Done 100] [] [FWrite [1;2;3]; FWrite [4;5]] = ([1;2;1;2;3], [], FsThrow (EFd 28)).
+Proof. reflexivity. Qed.
+Example ex_fs_abort : fs_run 4 [Fail 28; Fail 5] [] [FWrite [1;2;3]; FWrite [4;5]] = ([], [], FsAbort).
 Proof. reflexivity. Qed.
 Example ex_run_exit0 :
   run 0 (PWriteSeq 1 [1;2;3] (PRead 1 1 2 (fun g => PPWrite 2 1 g (PSync 2 Halt)))) [Done 2; Eintr; Done 5; Done 1; Done 1; Done 9; Done 0] []
